@@ -373,7 +373,22 @@ pub fn run_b(sc: &ScenarioB, opts: &BOptions) -> OutcomeB {
         (Err(_), _) | (Ok(_), None) => {
             let (msg, loc) = panic.unwrap_or_else(|| ("<unknown panic>".to_string(), String::new()));
             out.failed_step = Some(progress);
-            if loc.starts_with("src/") {
+            if msg == "SIMKILL" {
+                let step = sc.steps.get(progress);
+                let why = sim.liveness_violation.clone().unwrap_or_default();
+                let class = if why.contains("expired limit ignored") { "limit-ignored" } else { "continued-after-stop" };
+                out.found.push(Found {
+                    class: class.into(),
+                    message: format!(
+                        "search #{progress} had to be unwound by the simulator: {why} ({})",
+                        step.map(|s| format!("`{}` in {}, stop injected at poll {:?}", s.go.line(), s.fen, s.stop_at_poll)).unwrap_or_default()
+                    ),
+                    signature: class.into(),
+                });
+                if sim.node_cap_hit {
+                    out.inconclusive = Some(format!("search #{progress} exhausted the per-search node budget"));
+                }
+            } else if loc.starts_with("src/") {
                 out.harness_error = Some(format!("panic in harness code at {loc}: {msg}"));
             } else {
                 let locr = loc.rsplit_once("/src/").map(|(_, r)| format!("src/{r}")).unwrap_or_else(|| loc.clone());
